@@ -1,5 +1,6 @@
 import TuModel.Model.Wire
 import TuModel.Model.Windows
+import TuModel.Model.WindowsU
 namespace Tu.Drive
 open Tu Tu.Wire
 
@@ -10,6 +11,12 @@ def winErr : WinErr → String
   | .badConfig => err "bad-config"
   | .tooWide => err "too-wide"
   | .noProgress => err "no-progress"
+
+/-- does the checked mirror give exactly the Nat model's answer (and no overflow)? -/
+def sameAnswer : Option (Except WinErr (List Win)) → Except WinErr (List Win) → Bool
+  | some (.ok a), .ok b => a == b
+  | some (.error a), .error b => a == b
+  | _, _ => false
 
 /-- request: kind (0 char, 1 byte, 2 full), max, ctx, cluster byte lengths -/
 def windowsD (op : String) (args : List Nat) : Option String :=
@@ -23,6 +30,11 @@ def windowsD (op : String) (args : List Nat) : Option String :=
         pure (k, m, c, l, obs)) args with
       | some (k, m, c, lens, obs) =>
         if lens.any (fun x => x == 0) || k > 2 then reject else
+        -- the checked-arithmetic mirror of the code (every `usize` operation of `char` / `byte`, `none` = an
+        -- overflow panic) must not overflow and must give the Nat model's answer (`C16.charWindowsU_eq`,
+        -- `byteWindowsU_eq` prove this for every text that can exist; here it is evaluated on the request)
+        if (k == 0 && m < U64 && !sameAnswer (charWindowsU lens m c) (charWindows lens m c)) ||
+           (k == 1 && m < U64 && !sameAnswer (byteWindowsU lens m c) (byteWindows lens m c)) then "refuse model-arithmetic" else
         if lens.isEmpty then
           -- the empty text: no open choice, the answer is the function model's
           (match windowsModel k lens m c, obs with
